@@ -114,12 +114,15 @@ def emit_run(tier, seed, d, prior=0):
                 files_equal += 1
                 continue
             agree[cid] = False
-            if len(disagreements) < 40:
-                ta = text_of(a).split('\n') if a else ['<file not written by the implementation>']
-                tb = text_of(b).split('\n') if b else ['<file not predicted by the model>']
+            ta = text_of(a).split('\n') if a else ['<file not written by the implementation>']
+            tb = text_of(b).split('\n') if b else ['<file not predicted by the model>']
+            # does the difference lie in documentation comments only? (prettyplease prints #[doc] as /// or //! lines)
+            docs_only = bool(a and b) and [x for x in ta if not x.lstrip().startswith(('///', '//!'))] == [x for x in tb if not x.lstrip().startswith(('///', '//!'))]
+            if len(disagreements) < 400:
                 k = next((j for j, (x, y) in enumerate(zip(ta, tb)) if x != y), min(len(ta), len(tb)))
-                disagreements.append({'case': cid, 'file': p, 'first_differing_line': k, 'impl': ta[max(0, k - 2):k + 3], 'model': tb[max(0, k - 2):k + 3],
-                                      'spec': dehex(cases.get(cid, ''))[:5000]})
+                disagreements.append({'case': cid, 'file': p, 'docs_only': docs_only, 'presence': not (a and b), 'first_differing_line': k,
+                                      'impl': ta[max(0, k - 2):k + 3], 'model': tb[max(0, k - 2):k + 3],
+                                      'spec': dehex(cases.get(cid, ''))[:5000] if len(disagreements) < 40 else ''})
             else:
                 disagreements.append(None)
         for l in open(f'{d}/efeatures_{i}.txt'):
@@ -138,6 +141,41 @@ def emit_run(tier, seed, d, prior=0):
                 cls = ''   # a known class only counts where the model predicts exactly what the implementation did
             findings.append((cid, p, cls, msg, dehex(cases.get(cid, ''))[:5000]))
     return total, len(nontriv), feats, samples, disagreements, findings, files_equal
+
+
+# Which emitted files (and which part of them) a property's tie to the code rests on. A disagreement between the model's
+# predicted file and the implementation's file outside this view does not touch the property's theorems: it is counted
+# in the evidence (`disagreements_outside_view`) and judged by the properties whose view it falls in (C02 sees all).
+VIEW = {
+    'C01': dict(files=(), docs=False, presence=True),                                   # outcome and the set of files
+    'C02': dict(files=('',), docs=True, presence=True),                                  # everything
+    'C03': dict(files=('src/request/', 'src/lib.rs'), docs=False, presence=False),
+    'C04': dict(files=('src/model/', 'src/serde.rs'), docs=False, presence=False),
+    'C05': dict(files=('src/request/', 'src/lib.rs'), docs=False, presence=False),
+    'C06': dict(files=('src/request/', 'src/lib.rs', 'examples/'), docs=False, presence=True),
+    'C07': dict(files=('src/model/', 'src/request/', 'src/lib.rs'), docs=False, presence=True),
+    'C08': dict(files=('src/model/', 'src/request/', 'src/lib.rs'), docs=False, presence=False),
+    'C13': dict(files=('',), docs=False, presence=True),
+    'C14': dict(files=('src/request/', 'src/lib.rs'), docs=False, presence=False),
+    'C15': dict(files=('src/lib.rs',), docs=False, presence=False),
+    'C16': dict(files=('examples/',), docs=False, presence=True),
+    'C17': dict(files=('',), docs=True, presence=False),
+    'C18': dict(files=('src/model/', 'src/request/'), docs=False, presence=False),
+}
+
+
+def in_view(prop, x):
+    """is this file-level disagreement part of what ties the model to the code for `prop`?"""
+    v = VIEW.get(prop)
+    if v is None or x is None or 'file' not in x:
+        return True
+    if x.get('presence'):
+        return v['presence'] or any(x['file'].startswith(f) for f in v['files'])
+    if not any(x['file'].startswith(f) for f in v['files']):
+        return False
+    if x.get('docs_only') and not v['docs']:
+        return False
+    return True
 
 
 def compile_run(tier, seed, d):
@@ -565,11 +603,13 @@ def run(prop, tier, seed, extra_props=(), also_hir=False, compile_layer=False, d
     cli_ok, cli_log = build_cli()
     ps = proof_side(prop)
     total = nontriv = files_equal = 0; feats = {}; samples = []; disagreements = []; oracle = []; known_seen = {}
-    hir_part = None; compile_part = None; det_part = None; exec_part = None
+    hir_part = None; compile_part = None; det_part = None; exec_part = None; outside_view = []
     if not (har_ok and drv_ok and cli_ok):
         out.violation('build', {'what': 'harness, driver or CLI build failed', 'logs': {**logs, 'cli': cli_log}}, no_input=True)
     else:
         total, nontriv, feats, samples, disagreements, findings, files_equal = emit_run(tier, seed, d)
+        outside_view = [x for x in disagreements if not in_view(prop, x)]
+        disagreements = [x for x in disagreements if in_view(prop, x)]
         known_map = dict(KNOWN_CLASSES)
         if also_hir:
             from . import hirprops
@@ -638,6 +678,7 @@ def run(prop, tier, seed, extra_props=(), also_hir=False, compile_layer=False, d
                evaluations=total, distinct_nontrivial=nontriv, files_compared_equal=files_equal,
                rule='corpus then generated (spec, config) pairs: specs as in the HIR engine (rich profile; every third shard wild), configs = service names of one or more words, 0-4 derive strings over simple/nested/padded/duplicate/un-tokenisable, examples on/off; every file of every emitted crate is compared with the predicted file; non-trivial = at least one feature fired; distinct by input text',
                samples=samples, feature_histogram=feats, disagreements_checked=len(disagreements), oracle_failures=len(oracle),
+               disagreements_outside_view=dict(count=len(outside_view), view=VIEW.get(prop), first=[{k: x[k] for k in ('case', 'file', 'docs_only')} for x in outside_view if x][:5]),
                known_findings_seen={k: len(v) for k, v in known_seen.items()}, proof_problems=ps['problems'], hir_level=hir_part, compile_level=compile_part, determinism_level=det_part, execution_level=exec_part,
                totality_hypotheses=dict(WF, note='Spec/Wf.v hir_ok (depth 60) evaluated on every table the model extracts: t = C01_emission_total applies, f = it does not (f_but_generated: the implementation produced a crate anyway), x = extraction itself returned an error; spec_ok_t / spec_ok_f = Spec/WfSpec.v spec_ok (depth 60) on the document, t = C01_extraction_total applies; both_t = both theorems apply, the whole pipeline is proved total on that input'))
     write_evidence(prop, tier, seed, 'proof', cov, time.time() - t0, len(out.violations),
